@@ -405,7 +405,7 @@ func init() {
 	core.Register(&core.Check{
 		ID: "C18",
 		Rule: "single-operation sweep: every element of the hand-sized Patient, Observation, Questionnaire and of a slice of the schema-covering resource family (quick: 24 types x 1 instance at depth 2; thorough: all 146 types x 2 instances) is the target of Delete and Replace in every spelling {indexed path, first(), last(), where(true), take/skip, extension(url)}, every repeated element the target of Insert at every index in [-1, len+1], every element name of every visited message the target of Add; values: same type (different content), sibling types (string/code for a bound code incl. invalid codes, integer for positiveInt/unsignedInt incl. negative, code/markdown for string), wrong types (primitive/complex/boolean) and nil; nil resource; both the package-level and the compiled entry points; Move. Oracle: on success the resource equals the structural reference model of the operation applied to a copy (compared as protos, else as jsonformat JSON); on error the resource and the value are unchanged (proto equality, deterministic bytes and presence fingerprint); deleting an absent element returns nil without change; Move returns ErrNotImplemented. Operation histories: explicit-state BFS from the hand-sized Patient over an alphabet of 18 operations (with inverses) to depth 3 (quick) / 4 (thorough): every transition is compared with the model's transition, states are de-duplicated by canonical bytes, successors are built by replaying the shortest path on a fresh copy; non-trivial = distinct (resource, operation, target, value class, outcome)",
-		Assumptions: []string{"the reference model applies the operation by schema position on a protobuf copy; C02 establishes that schema positions and the jsonformat tree are aligned", "elements inside contained / bundled resources are not targeted"},
+		Assumptions: []string{"the reference model applies the operation by schema position on a protobuf copy; C02 establishes that schema positions and the jsonformat tree are aligned", "elements inside contained / bundled resources are targeted by the contained-targets sub-space only (success must show in the JSON, an error must change nothing)"},
 		Subs: func(tier string) []core.Sub {
 			cases := []resCase{
 				{"Patient(hand)", func() fhir.Resource { return lib.Patient() }},
@@ -432,7 +432,55 @@ func init() {
 				{Name: "single-operations", N: len(cases), Note: fmt.Sprintf("%d resources x every element x operations x spellings x value classes x indexes", len(cases)), Run: func(i int, r *core.Rec) {
 					c18Sweep(r, cases[i].name, cases[i].mk)
 				}},
-				{Name: "histories", N: 1, Note: fmt.Sprintf("explicit-state BFS over 16 operations on the hand-sized Patient to depth %d", bfsDepth), Run: func(i int, r *core.Rec) {
+				{Name: "contained-targets", N: 3, Note: "elements of contained resources (packed) and of Bundle entries (not packed) as targets of Delete / Replace / Add / Insert: success must show in the resource's FHIR JSON, an error must leave the resource unchanged - success without a change is neither", Run: func(i int, r *core.Rec) {
+					type tcase struct {
+						name string
+						mk   func() fhir.Resource
+						root string // path of the inner resource
+					}
+					tc := []tcase{
+						{"Patient with contained Observation", func() fhir.Resource { return lib.PatientWithContained() }, "Patient.contained[0]"},
+						{"generated resource with two contained resources", func() fhir.Resource { return proto.Clone(lib.GenResource("ActivityDefinition", 1, 2)).(fhir.Resource) }, "ActivityDefinition.contained[1]"},
+						{"Bundle entry", func() fhir.Resource { return lib.Bundle() }, "Bundle.entry[0].resource"},
+					}[i]
+					ops := []struct {
+						name string
+						do   func(res fhir.Resource) error
+					}{
+						{"Delete id", func(res fhir.Resource) error { return patch.Delete(res, tc.root+".id") }},
+						{"Replace id", func(res fhir.Resource) error { return patch.Replace(res, tc.root+".id", fhir.ID("zz9")) }},
+						{"Add language", func(res fhir.Resource) error { return patch.Add(res, tc.root, "language", fhir.Code("en-AU"), &patch.Options{}) }},
+						{"Add id to meta", func(res fhir.Resource) error { return patch.Add(res, tc.root+".meta", "id", fhir.String("m1"), &patch.Options{}) }},
+						{"Delete the inner resource's first extension", func(res fhir.Resource) error { return patch.Delete(res, tc.root+".extension[0]") }},
+						{"Insert an extension at 0", func(res fhir.Resource) error {
+							return patch.Insert(res, tc.root+".extension", &dtpb.Extension{Url: fhir.URI("http://new")}, 0)
+						}},
+						{"Delete the inner resource", func(res fhir.Resource) error { return patch.Delete(res, tc.root) }},
+					}
+					for _, op := range ops {
+						res := tc.mk()
+						before := proto.Clone(res)
+						_, jb, _ := lib.ResourceJSON(res)
+						o := c18Run(func() error { return op.do(res) })
+						r.Eval()
+						_, ja, _ := lib.ResourceJSON(res)
+						r.State("contained|" + tc.name)
+						r.Nontrivial(tc.name, op.name, fmt.Sprint(o.err == nil), fmt.Sprint(string(jb) == string(ja)))
+						w := core.W{"resource": tc.name, "operation": op.name, "inner_resource": tc.root, "error": fmt.Sprint(o.err)}
+						if r.WantSample() {
+							r.Sample(w)
+						}
+						switch {
+						case o.pi != nil:
+							r.Fail("contained|"+op.name+"|"+o.pi.Key(), w)
+						case o.err != nil && !proto.Equal(before, res):
+							r.Fail("contained|"+op.name+"|resource-changed-although-error-returned", w)
+						case o.err == nil && string(jb) == string(ja) && !strings.HasPrefix(op.name, "Delete the inner resource's first extension"):
+							r.Fail("contained|"+op.name+"|reported-success-but-did-nothing", w)
+						}
+					}
+				}},
+				{Name: "histories", N: 1, Note: fmt.Sprintf("explicit-state BFS over 18 operations on the hand-sized Patient to depth %d", bfsDepth), Run: func(i int, r *core.Rec) {
 					c18BFS(r, bfsDepth)
 				}},
 			}
